@@ -13,6 +13,14 @@ package httpserver
 // A client that has a response was accepted before; one that has not hung up is still open on the
 // server: the counter is conservative (DESIGN 2.3).
 //
+//   restart {cap} after a reload that changed a restart-relevant option (port, keepAliveTimeout) has
+//                been carried out - a new listener with the cap of the new spec; nobody is connected
+//
+// Scenario "reload-sequence": TLC-generated sequences of reloads (specs/ConnCap.tla, profile
+// OnlyReloads: run-time cap changes and restarting reloads in every order, with every value; read
+// from VERIF_IN) are executed on a real server; the cap the server ends with (thorough tier: the cap
+// after every reload) is probed with cap+1 clients.
+//
 // The runtime gives no signal when a cap change has been applied.  The harness waits until the
 // reload event was consumed plus a settle time and then logs `rzdone` with "assumed":true.  The
 // driver trusts a rejection only if it also holds without the assumed events, or if it reproduces
@@ -24,6 +32,7 @@ import (
 	"io"
 	"net"
 	"net/http"
+	"os"
 	"strings"
 	"sync"
 	"testing"
@@ -67,6 +76,14 @@ func (g *c17SLog) rz(n int) int {
 	g.nrz++
 	g.emit(vx.M{"ev": "rz", "id": g.nrz, "n": n})
 	return g.nrz
+}
+
+// restart: the server has been restarted with this cap; the numbering of cap changes starts again.
+func (g *c17SLog) restart(cap int, how string) {
+	g.mu.Lock()
+	defer g.mu.Unlock()
+	g.nrz = 0
+	g.emit(vx.M{"ev": "restart", "cap": cap, "how": how})
 }
 
 func (g *c17SLog) rzdoneAssumed(id int) {
@@ -141,6 +158,7 @@ type c17Env struct {
 	t      *testing.T
 	g      *c17SLog
 	port   int
+	kat    int // keepAliveTimeout of the spec, seconds (changing it makes a reload restart the server)
 	hs     *HTTPServer
 	settle time.Duration
 	nc     int
@@ -201,7 +219,11 @@ func (e *c17Env) mapper() context.MuxMapper {
 	}}
 }
 
-type c17Resize struct{ id, n, from int }
+type c17Resize struct {
+	id, n, from int
+	at          time.Time // when the runtime had consumed the reload
+	quiet       bool      // nobody was connected then, nobody has dialled since
+}
 
 func c17FreePort() int {
 	l, err := net.Listen("tcp", ":0")
@@ -218,14 +240,14 @@ kind: HTTPServer
 name: c17
 port: %d
 keepAlive: true
-keepAliveTimeout: 600s
+keepAliveTimeout: %ds
 https: false
 maxConnections: %d
 rules:
 - paths:
   - pathPrefix: /slow/
     backend: c17slow
-`, e.port, maxc)
+`, e.port, e.kat, maxc)
 	ss, err := supervisor.NewSpec(y)
 	if err != nil {
 		e.t.Fatalf("c17: spec: %v", err)
@@ -234,7 +256,7 @@ rules:
 }
 
 func c17Start(t *testing.T, g *c17SLog, cap0 int, settle time.Duration, meta vx.M) *c17Env {
-	e := &c17Env{t: t, g: g, port: c17FreePort(), settle: settle, lastCap: cap0, slow: map[string]*c17Client{}}
+	e := &c17Env{t: t, g: g, port: c17FreePort(), kat: 600, settle: settle, lastCap: cap0, slow: map[string]*c17Client{}}
 	g.reset(cap0, meta)
 	e.hs = &HTTPServer{}
 	e.hs.Init(e.spec(cap0), e.mapper())
@@ -250,6 +272,12 @@ func c17Start(t *testing.T, g *c17SLog, cap0 int, settle time.Duration, meta vx.
 
 // reload changes maxConnections the way the supervisor does (a new generation inherits the runtime).
 func (e *c17Env) reload(n int) {
+	e.reloadLazy(n)
+	e.trySettle()
+}
+
+// reloadLazy: the same without waiting for the settle time (trySettle does, before the next observation).
+func (e *c17Env) reloadLazy(n int) {
 	id := e.g.rz(n)
 	next := &HTTPServer{}
 	next.Inherit(e.spec(n), e.hs, e.mapper())
@@ -257,9 +285,41 @@ func (e *c17Env) reload(n int) {
 	for i := 0; i < 20000 && len(e.hs.runtime.eventChan) > 0; i++ {
 		time.Sleep(100 * time.Microsecond)
 	}
-	e.pending = append(e.pending, c17Resize{id: id, n: n, from: e.lastCap})
+	e.pending = append(e.pending, c17Resize{id: id, n: n, from: e.lastCap, at: time.Now(), quiet: e.connected() == 0})
 	e.lastCap = n
-	e.trySettle()
+}
+
+// restart reloads the server with a restart-relevant option changed (how = "port": another port;
+// otherwise another keepAliveTimeout) and maxConnections n: the runtime shuts the server down and starts
+// a new one, with a new listener.  Only called with nobody connected.  False: the new server did not
+// come up (environment: the port could not be bound); the scenario is abandoned.
+func (e *c17Env) restart(n int, how string) bool {
+	if k := e.connected(); k > 0 {
+		e.t.Fatalf("c17: restart with %d clients connected (harness bug)", k)
+	}
+	if how == "port" {
+		e.port = c17FreePort()
+	} else {
+		e.kat++
+	}
+	next := &HTTPServer{}
+	next.Inherit(e.spec(n), e.hs, e.mapper())
+	e.hs = next
+	// the event loop handles one event at a time: once a second (idle) event has been taken out of the
+	// channel the reload before it has been carried out completely
+	e.hs.runtime.eventChan <- &eventCheckFailed{}
+	deadline := time.Now().Add(25 * time.Second) // (a failed start is retried by the runtime every 10 s)
+	for len(e.hs.runtime.eventChan) > 0 || e.hs.runtime.getState() != stateRunning || e.hs.runtime.getError().Error() != "" {
+		if time.Now().After(deadline) {
+			e.g.note(vx.M{"k": "restart-failed", "how": how, "state": string(e.hs.runtime.getState()), "err": e.hs.runtime.getError().Error()})
+			return false
+		}
+		time.Sleep(200 * time.Microsecond)
+	}
+	e.pending = nil // cap changes of the old listener are history
+	e.lastCap = n
+	e.g.restart(n, how)
+	return true
 }
 
 // trySettle logs the assumed completion of pending cap changes, oldest first.  A grow is taken as
@@ -272,9 +332,19 @@ func (e *c17Env) trySettle() {
 		if r.n < r.from && e.connected() > r.n-1 {
 			return
 		}
-		time.Sleep(e.settle)
+		if !r.quiet {
+			time.Sleep(e.settle)
+		} else if d := time.Until(r.at.Add(e.settle)); d > 0 {
+			time.Sleep(d) // nobody has been connected since the reload: the settle time counts from the reload
+		}
 		e.g.rzdoneAssumed(r.id)
 		e.pending = e.pending[1:]
+	}
+}
+
+func (e *c17Env) unquiet() {
+	for i := range e.pending {
+		e.pending[i].quiet = false
 	}
 }
 
@@ -308,6 +378,7 @@ func (e *c17Env) dial() *c17Client {
 	e.nc++
 	c := &c17Client{p: fmt.Sprintf("c%d", e.nc), done: make(chan struct{})}
 	e.all = append(e.all, c)
+	e.unquiet()
 	e.g.accInv(c.p)
 	conn, err := net.DialTimeout("tcp", fmt.Sprintf("127.0.0.1:%d", e.port), 10*time.Second)
 	if err != nil {
@@ -338,6 +409,7 @@ func (e *c17Env) dialSlow() *c17Client {
 	e.slow[c.p] = c
 	e.smu.Unlock()
 	e.all = append(e.all, c)
+	e.unquiet()
 	e.g.accInv(c.p)
 	conn, err := net.DialTimeout("tcp", fmt.Sprintf("127.0.0.1:%d", e.port), 10*time.Second)
 	if err != nil {
@@ -476,8 +548,8 @@ func (e *c17Env) again() {
 	}
 }
 
-// finish hangs up served clients until every client has been served and hung up, then closes the server.
-func (e *c17Env) finish() {
+// drain hangs up served clients until every client has been served and has hung up.
+func (e *c17Env) drain() bool {
 	deadline := time.Now().Add(30 * time.Second)
 	for {
 		pending := 0
@@ -491,28 +563,37 @@ func (e *c17Env) finish() {
 			}
 		}
 		if pending == 0 {
-			break
+			return true
 		}
 		if time.Now().After(deadline) {
 			e.stuck(e.openNow())
-			break
+			return false
 		}
 		time.Sleep(time.Millisecond)
 	}
-	// final probe: everybody has hung up, every cap change had the time to complete: exactly the last
-	// configured cap is usable - that many new clients are served (stuck otherwise), one more is not
-	// (its answer would be in the log)
+}
+
+// probe: everybody has hung up, every cap change had the time to complete: exactly the last
+// configured cap is usable - that many new clients are served (stuck otherwise), one more is not
+// (its answer would be in the log).  Afterwards everybody is served and hangs up.
+func (e *c17Env) probe() bool {
+	e.trySettle()
+	var ps []*c17Client
+	for i := 0; i < e.lastCap+1; i++ {
+		ps = append(ps, e.dial())
+	}
+	e.expectServed(ps, e.lastCap)
+	time.Sleep(80 * time.Millisecond)
+	return e.drain()
+}
+
+// finish hangs up served clients until every client has been served and hung up, probes the cap the
+// scenario ends with, then closes the server.
+func (e *c17Env) finish() {
+	e.drain()
 	if !e.probed {
 		e.probed = true
-		e.trySettle()
-		var ps []*c17Client
-		for i := 0; i < e.lastCap+1; i++ {
-			ps = append(ps, e.dial())
-		}
-		e.expectServed(ps, e.lastCap)
-		time.Sleep(80 * time.Millisecond)
-		e.finish()
-		return
+		e.probe()
 	}
 	e.hs.Close()
 	for _, c := range e.all {
@@ -541,6 +622,11 @@ func TestVerifC17Server(t *testing.T) {
 	hold := 60 * time.Millisecond // how long a held-back client is watched; an early answer shows up in the log
 	rounds := vx.EnvInt("VERIF_N", 1)
 	rng := vx.Rand(1703)
+	var seqs []vx.M
+	if os.Getenv("VERIF_IN") != "" {
+		seqs = vx.ReadNDJSON(t, "VERIF_IN")
+	}
+	probeAll := vx.EnvInt("VERIF_PROBE_ALL", 0) == 1
 
 	for round := 0; round < rounds; round++ {
 		// S1: fixed cap: c served, the rest held back; a hang-up frees exactly one slot
@@ -651,6 +737,39 @@ func TestVerifC17Server(t *testing.T) {
 				e.release(c)
 			}
 			e.expectEntered([]*c17Client{x}, 1)
+			e.finish()
+		}
+		// S7: reload sequences generated by TLC (profile OnlyReloads of specs/ConnCap.tla): run-time cap changes
+		// and restarting reloads (port / keepAliveTimeout changed: a new listener) in every order.  The cap the
+		// server ends with is probed with cap+1 clients (VERIF_PROBE_ALL=1: the cap after every reload).
+		for si, sq := range seqs {
+			if si%rounds != round {
+				continue
+			}
+			c0 := vx.Int(sq["cap"])
+			e := c17Start(t, g, c0, settle, vx.M{"scenario": "reload-sequence", "round": round, "seq": sq["ops"]})
+			ok := true
+			for _, o := range vx.List(sq["ops"]) {
+				op := o.(map[string]interface{})
+				n := vx.Int(op["n"])
+				if vx.Str(op["k"]) == "rs" {
+					how := "keepalive"
+					if rng.Intn(2) == 0 {
+						how = "port"
+					}
+					if ok = e.restart(n, how); !ok {
+						break
+					}
+				} else {
+					e.reloadLazy(n)
+				}
+				if probeAll {
+					e.probe()
+				}
+			}
+			if !ok {
+				e.probed = true // the server is not up: nothing to probe
+			}
 			e.finish()
 		}
 		// S5: churn: clients come and go while the cap is changed a few times
